@@ -117,7 +117,7 @@ def run(prog, chk):
                 pe = fl.nodes_with_call(name="self._perform_exchange")
                 direct = [c for c in walk_no_defs(h.node) if M.is_call(c, attr="exchange")]
                 sk = fl.nodes_with_call(attr="_set_K_H")
-                ok = len(pe) == 1 and not direct and bool(sk) and fl.dominated([sk[0][0]], guard_nodes=[pe[0][0]])
+                ok = len(pe) == 1 and not direct and bool(sk) and fl.dominated([sk[0][0]], guard_nodes=[pe[0][0]], complete=True)
                 chk.ob("R4.x25519-via-helper", h.qual, ok, h.loc, "exchange only via _perform_exchange, before _set_K_H")
     chk.floor("R1", "DH range sites", nsites, 4)
 
